@@ -56,6 +56,22 @@ CLAIMS.update({
          'order, delegation/handler/route precedence with first-match scan shape, enter/exit and sub-machine start/stop pairing, definition calls rejected while running', '§4 C16',
          'counter dataflow + CFG order/pairing rules over clang AST/CFG'),
 })
+CLAIMS.update({
+ 'C08': ('generation counter only grows, token/range/id guards agree over at/update/free and free-list threading, pooled types never new/delete (whole program) with '
+         'one placement-new / one destructor per alloc/free, Fd reference-count pairing and close marking, no deferred task captures a still-registered managed pointer '
+         '(whole program)', '§4 C08', 'type rules + guard/pairing path rules over clang AST/CFG (templates via explicit instantiation TU)'),
+ 'C17': ('lifecycle propagation matrix over every composite and child field (delete/reset/install/ready/stop-pause-resume), base-hook must-call on every override, '
+         'notifications only as cancellable deferred tasks cancelled by stop/reset/destructor, base lifecycle gates and single onFinal, held-back child results in '
+         'serial composites, reset-before-rerun', '§4 C17', 'sibling-agreement matrix + must-call/path rules over clang AST/CFG'),
+ 'C18': ('waiters re-register before every wait, wake-up conditional only on the waiter queue, cancellation test between wait and resource, broadcast/condition '
+         'post shapes, scheduler cleanup/switch/schedule shapes', '§4 C18', 'CFG path rules over clang AST/CFG (templates via explicit instantiation TU)'),
+ 'C19': ('constant tables equal tables generated from the standards\' formulae (Base64, CRC-16/32, AES S-box/inverse/Rcon, MD5 constants/shifts/order/state/padding, '
+         'scalable-integer ranges), every constant-table subscript in range by interval evaluation, serializer/deserializer width and byte-order agreement, '
+         'capacity test before stores, digit validation', '§4 C19', 'constant-table conformance + interval evaluation + sibling agreement over clang AST/CFG'),
+ 'C20': ('seconds->milliseconds conversion wide enough for the operand\'s type range, re-arm before callback, next instant depends on max(now, previous target), '
+         'time-zone symmetry, running<=>armed, out-parameter/strictly-after discipline of every calculateNextLocalTimeSec', '§4 C20',
+         'interval evaluation + data-dependence/path rules over clang AST/CFG'),
+})
 NA = {
  'C07': 'every clause is value-level (byte equality, index arithmetic of the three-way space policy): needs a relational numeric domain or a solver, '
         'outside the static-analysis family as available here (DESIGN.md §5)',
